@@ -750,12 +750,17 @@ def find_loops(toks, lo, hi):
             # body '{' : first '{' at depth 0 after the header, skipping (..) [..] groups,
             # and struct-literal braces cannot appear in loop headers without parens
             k = i + 1
+            seen_in = t.text != "for"   # in a `for` header braces before `in` belong to the (struct) pattern
             while k < hi:
                 tk = toks[k]
                 if tk.kind == PUNCT and tk.text in ("(", "["):
                     k = match_close(toks, k) + 1; continue
+                if tk.kind == IDENT and tk.text == "in":
+                    seen_in = True
                 if tk.kind == PUNCT and tk.text == "{":
-                    break
+                    if seen_in:
+                        break
+                    k = match_close(toks, k) + 1; continue
                 k += 1
             res.append((i, k))
         i += 1
@@ -821,6 +826,7 @@ class Extract:
     desugar_for: list = field(default_factory=list)
     closures: list = field(default_factory=list)   # (ordinal, retdecl, ensures)
     entry: list = field(default_factory=list)      # proof/ghost text inserted at function entry
+    exit_: list = field(default_factory=list)      # proof text appended at the end of a ()-returning body
     fallback: list = field(default_factory=list)   # text emitted instead when the item no longer exists
     tmpl_line: int = 0
     rename: str = ""
@@ -885,6 +891,10 @@ def parse_template(text):
         if mm:
             c = Clause("looppre", "", mm.group(2), loop=int(mm.group(1)))
             cur.clauses.append(c); last = ("clause", c); i += 1; continue
+        mm = re.match(r"^loop\s+(\d+)\s+tail\s*:\s?(.*)$", body)
+        if mm:
+            c = Clause("looptail", "", mm.group(2), loop=int(mm.group(1)))
+            cur.clauses.append(c); last = ("clause", c); i += 1; continue
         mm = re.match(r"^loop\s+(\d+)\s+head\s*:\s?(.*)$", body)
         if mm:
             c = Clause("loophead", "", mm.group(2), loop=int(mm.group(1)))
@@ -910,6 +920,10 @@ def parse_template(text):
         if mm:
             ins = ["fallback", "", 1, mm.group(1)]
             cur.fallback.append(ins); last = ("insert", ins); i += 1; continue
+        mm = re.match(r"^exit\s*:\s?(.*)$", body)
+        if mm:
+            ins = ["exit", "", 1, mm.group(1)]
+            cur.exit_.append(ins); last = ("insert", ins); i += 1; continue
         mm = re.match(r"^entry\s*:\s?(.*)$", body)
         if mm:
             ins = ["entry", "", 1, mm.group(1)]
@@ -1165,7 +1179,7 @@ def build(template_text: str, repo: str, unit: str) -> Built:
             if not meta.get("stub"):
                 fn_ranges.append((first, last, meta["fn"], props, meta["src"]))
                 for c in ex.clauses:
-                    if c.kind in ("loopentry", "looppre", "loophead"):
+                    if c.kind in ("loopentry", "looppre", "loophead", "looptail"):
                         continue
                     clauses_out.append(dict(fn=meta["fn"], kind=c.kind, label=c.label,
                                             loop=c.loop, text=c.text, props=props))
@@ -1397,6 +1411,10 @@ def _build_fn(sf: SourceFile, item: Item, impl, ex: Extract, props, rep, unit, a
                 text = "; " + text      # the statement was a block's tail expression of type ()
         body_toks[pos:pos] = [T("raw", "\n" + text + "\n")]
 
+    if ex.exit_:
+        pv = _prev_sig(body_toks, len(body_toks) - 1)
+        semi = "; " if pv >= 0 and body_toks[pv].text not in (";", "}", "{") else ""
+        body_toks[len(body_toks) - 1:len(body_toks) - 1] = [T("raw", "\n" + semi + "\n".join(e[3] for e in ex.exit_) + "\n")]
     if ex.entry:
         body_toks[1:1] = [T("raw", "\n" + "\n".join(e[3] for e in ex.entry) + "\n")]
 
@@ -1412,7 +1430,12 @@ def _build_fn(sf: SourceFile, item: Item, impl, ex: Extract, props, rep, unit, a
         kw = next(i for i, t in enumerate(body_toks) if getattr(t, "mark", None) == ("kw", ordn))
         br = next(i for i, t in enumerate(body_toks) if getattr(t, "mark", None) == ("brace", ordn))
         cl = loop_clauses.get(ordn, [])
-        spec = _render_loop_clauses([c for c in cl if c.kind not in ("loopentry", "looppre", "loophead")])
+        spec = _render_loop_clauses([c for c in cl if c.kind not in ("loopentry", "looppre", "loophead", "looptail")])
+        ltail = "\n".join(c.text for c in cl if c.kind == "looptail")
+        if ltail:
+            # proof text at the very end of the loop body (before its closing brace)
+            cb = match_close(body_toks, br)
+            body_toks[cb:cb] = [T("raw", "\n" + ltail + "\n")]
         lhead = "\n".join(c.text for c in cl if c.kind == "loophead")
         lentry = "\n".join(c.text for c in cl if c.kind == "loopentry")
         lpre = "\n".join(c.text for c in cl if c.kind == "looppre")
